@@ -105,6 +105,8 @@ Proof.
     + destruct x as [|c0 x']; [discriminate|]. cbn [conv_in]. unfold int_in. rewrite E. cbn [conv_out].
       rewrite (aval_eqvb_dec _ _ E), andb_true_r.
       destruct e; try discriminate; reflexivity.
+    + cbn [conv_in]. unfold int_in. rewrite E. cbn [conv_out]. rewrite (aval_eqvb_dec _ _ E), andb_true_r.
+      destruct e; try discriminate; reflexivity.
   - (* DDecPos: the value is not 0, so a truthiness guard lets it through *)
     cbn [in_dom] in Hin. destruct (dec x) as [n|] eqn:E; [|discriminate].
     apply negb_true_iff in Hin.
@@ -118,7 +120,7 @@ Proof.
     + destruct x as [|c0 x']; [discriminate|]. cbn [conv_in]. unfold int_in. rewrite E. cbn [conv_out].
       rewrite (aval_eqvb_dec _ _ E), andb_true_r.
       destruct e; cbn [emits is_fnone truthy negb]; try reflexivity. rewrite Hin. reflexivity.
-    + cbn [conv_in]. rewrite E, Hin. cbn [conv_out]. rewrite (aval_eqvb_dec _ _ E), andb_true_r.
+    + cbn [conv_in]. unfold int_in. rewrite E. cbn [conv_out]. rewrite (aval_eqvb_dec _ _ E), andb_true_r.
       destruct e; cbn [emits is_fnone truthy negb]; try reflexivity. rewrite Hin. reflexivity.
 Qed.
 
@@ -171,7 +173,7 @@ Lemma attr_one r ein eout attrs :
 Proof.
   intros Henv Hl Hm. destruct (not_parent (a_conv r)) eqn:Enp.
   2:{ (* copied from the parent *)
-    destruct (a_conv r) as [| | | | | | | | | |k] eqn:Ec; try discriminate Enp.
+    destruct (a_conv r) as [| | | | | | | | | | |k] eqn:Ec; try discriminate Enp.
     unfold attr_lossless in Hl. rewrite Ec in Hl.
     destruct (a_shape r) eqn:Es; try discriminate Hl. destruct (a_emit r) eqn:Ee; try discriminate Hl.
     unfold attr_matches in Hm. rewrite Ec, Es in Hm.
@@ -534,7 +536,7 @@ Proof.
   - unfold attr_val_wf in Hw. unfold put_attr in Hp, Hw.
     rewrite (conv_out_e_np _ _ _ Enp) in Hp. rewrite (conv_out_e_np _ _ _ Enp) in Hw.
     destruct (a_conv r); try discriminate Enp; rewrite Hp in Hw; exact Hw.
-  - destruct (a_conv r) as [| | | | | | | | | |k] eqn:Ec; try discriminate Enp.
+  - destruct (a_conv r) as [| | | | | | | | | | |k] eqn:Ec; try discriminate Enp.
     unfold put_attr in Hp. rewrite Ec in Hp. cbn [conv_out_e] in Hp.
     destruct (lookup k env) as [a|] eqn:El; [|discriminate].
     apply Some_inj in Hp. subst l. destruct (emits (a_emit r) v); [|reflexivity].
